@@ -1129,6 +1129,13 @@ class EdgeQLSourceGenerator(codegen.SourceGenerator):
                 group_by_system_comment=group_by_system_comment,
                 allow_short=allow_short,
             )
+        elif (
+            not node.commands
+            and ignored_cmds is None
+            and not self.sdlmode
+        ):
+            # An ALTER must have a command or a (possibly empty) block.
+            self.write(' {}')
 
     def _visit_DropObject(
         self,
